@@ -112,6 +112,11 @@ LEVEL_NOTE = ("Unmodelled: soundfile I/O, scipy's STFT / resample numerics, nump
               "argument). That every load opens the file as it is on disk now (no handle, header or content kept per "
               "path) is likewise observed, on generated histories in which the harness rewrites the file between loads "
               "(operation file_history, judged by the Lean file-system model). Slices / copies are xarray's (`isel`, `copy`), modelled as the corresponding part of the axis. "
+              "Arrays whose time coordinate has no 'step' attribute (hand-built, assign_coords, arithmetic on the "
+              "coordinate) are modelled as copies of their source (the code estimates the mean spacing; the model is "
+              "compared where that float product lies in the exact product's integer cell); strided selections of them "
+              "and `filter` calls have no Lean step: they and what is derived from them are monitored only (axisOk on "
+              "resampled results, `filter`: output axis = input axis, no call writes into its argument). "
               "Numeric argument types (int, float, numpy float64 / float32 / int64 / int32) and construction paths "
               "(constructor, model_validate, JSON, model_copy, assignment) are exercised, not modelled: the model sees "
               "the value.")
@@ -1206,8 +1211,35 @@ def _snap_diff(a, b, path=""):
 
 
 def _axis_out(arr):
-    return {"val": {"coords": _rats(arr.time.data), "step": rat(float(arr.time.attrs["step"]))},
-            "aux": {"n": int(arr.sizes["time"]), "dims": list(arr.dims)}}
+    """the time axis of an array; `step` is None when the time coordinate carries no 'step' attribute (a hand-built
+    array, `assign_coords`, arithmetic on the coordinate) - `est` is then the mean spacing the library would estimate"""
+    import numpy as np
+    step = arr.time.attrs.get("step")
+    o = {"val": {"coords": _rats(arr.time.data), "step": None if step is None else rat(float(step))},
+         "aux": {"n": int(arr.sizes["time"]), "dims": list(arr.dims)}}
+    if step is None and arr.sizes["time"] >= 2:
+        o["aux"]["est"] = rat(float(np.diff(arr.time.data).mean()))
+    return o
+
+
+def _fq(x):
+    return None if x is None else frac(x)
+
+
+def _strip_step(a, how):
+    """an array with the samples and the time coordinates of `a` whose time coordinate has NO 'step' attribute"""
+    import numpy as np
+    import xarray as xr
+    if how == "hand":
+        out = xr.DataArray(np.array(a.data, copy=True), dims=a.dims,
+                           coords={"time": np.array(a.time.data, copy=True), "channel": np.array(a.channel.data, copy=True)})
+    elif how == "arith":
+        out = a.assign_coords(time=(a.time + 0.0).data).copy(deep=True)
+    else:
+        out = a.assign_coords(time=np.array(a.time.data, copy=True)).copy(deep=True)
+    if "step" in out.time.attrs:
+        raise InfraError(f"strip ({how}) left a step attribute on the time coordinate")
+    return out
 
 
 def _session_base(inp):
@@ -1243,6 +1275,22 @@ def _session_step(base, rec, st, live):
         live[j]["view"] = True
         o = _axis_out(out)
         o["aux"]["view"] = True
+        return o, out
+    if k == "strip":
+        out = _strip_step(a, st.get("how", "assign"))
+        return _axis_out(out), out
+    if k == "stride":
+        out = a.isel(time=slice(st["a"], None, st["m"]))
+        live[j]["view"] = True
+        o = _axis_out(out)
+        o["aux"]["view"] = True
+        return o, out
+    if k == "filter":
+        from soundevent.audio import operations
+        kw = {x: float(frac(st[x])) for x in ("low_freq", "high_freq") if st.get(x) is not None}
+        out = operations.filter(a, **kw)
+        o = _axis_out(out)
+        o["aux"]["in_dims"] = list(a.dims)
         return o, out
     if k == "look":
         return _axis_out(a), None
@@ -1285,7 +1333,7 @@ def _impl_session(inp):
                     notes.append({"after": k, "array": j, "what": _snap_diff(L["snap"], now)[:300]})
                     L["snap"] = now
         live.append({"arr": arr, "snap": _snap(arr) if arr is not None else None, "poisoned": False,
-                     "is_view": st["k"] == "slice"})
+                     "is_view": st["k"] in ("slice", "stride")})
     return {"steps": outs, "notes": notes}
 
 
@@ -1298,8 +1346,10 @@ def _tm_session(inp):
             o = st.get("opts") or {}
             steps.append({"k": k, "src": st["src"], "w": st["w"], "h": st["h"], "padded": bool(o.get("padded", True)),
                           "ext": o.get("boundary", "zeros") is not None})
-        elif k == "poison":
+        elif k in ("poison", "stride"):
             steps.append({"k": "look", "src": st["src"]})      # no model: keeps the indices aligned
+        elif k in ("strip", "filter"):
+            steps.append({"k": "copy", "src": st["src"]})      # the time axis of the source, unchanged
         else:
             steps.append({x: st[x] for x in ("k", "s", "e", "src", "target", "a", "b") if x in st})
     return {"file": base["file"], "sr": _sr(base), "duration": _tm_recording_of(base)["duration"], "steps": steps}
@@ -1330,24 +1380,41 @@ def _session_infos(inp, io):
             info.update(kind="audio", rate=sr, safe=bool(_pow2(sr) or _frac_half_safe(d * sr)))
         elif src is not None and k == "resample":
             n, t, r = src["n"], int(st["target"]), src["rate"]
-            local = n is not None and _same_cell(Fraction(n * t, r), n * (float(t) * (1.0 / r)))
+            # the step the code multiplies by: the advertised one, or (no 'step' attribute) the mean spacing
+            fstep = (1.0 / r) if r and src.get("est") is None else (float(frac(src["est"])) if src.get("est") is not None else None)
+            local = n is not None and bool(r) and fstep is not None and _same_cell(Fraction(n * t, r), n * (float(t) * fstep))
             info.update(kind="audio", rate=t, safe=bool(src["safe"] and local))
         elif src is not None and k == "spectrogram":
             info.update(kind="spec", rate=src["rate"],
                         safe=bool(src["safe"] and _stft_safe(src["rate"], frac(st["w"]), frac(st["h"]), st.get("num"))))
-        elif src is not None and k in ("slice", "look", "copy"):
+        elif src is not None and k in ("slice", "look", "copy", "strip", "filter"):
             info.update(kind="audio", rate=src["rate"], safe=src["safe"])
+        elif src is not None and k == "stride":
+            # no Lean step for a strided selection: this array and everything derived from it is judged by the
+            # monitors only (`safe` False); its nominal rate is known when the stride divides the source's rate
+            m = int(st["m"])
+            info.update(kind="audio", rate=(src["rate"] // m if src["rate"] and src["rate"] % m == 0 else None), safe=False)
         if info["kind"] == "audio" and not _is_raise(out) and isinstance(out.get("val"), dict):
             v = out["val"]
             cs = v["times"] if "times" in v else v["coords"]
-            info.update(n=len(cs), first=cs[0] if cs else None, coords=cs, step=v["step"])
-            if len(cs) >= 2:
+            info.update(n=len(cs), first=cs[0] if cs else None, coords=cs, step=v["step"],
+                        est=(out.get("aux") or {}).get("est"))
+            if len(cs) >= 2 and v["step"] is None:
+                # no advertised step: the library estimates the mean spacing; `exact` = the spacing is regular
+                fs = [frac(c) for c in cs]
+                d0 = fs[1] - fs[0]
+                info["exact"] = d0 > 0 and all(abs((y - x) - d0) <= d0 * Fraction(1, 10 ** 9) for x, y in zip(fs, fs[1:]))
+            elif len(cs) >= 2:
                 stp = frac(v["step"])
                 info["exact"] = abs((frac(cs[1]) - frac(cs[0])) - stp) <= abs(stp) * Fraction(1, 10 ** 9)
             else:
                 info["exact"] = True
         infos.append(info)
     return infos
+
+
+def _fl(x):
+    return None if x is None else float(frac(x))
 
 
 def _sm(cls, k, st, detail=""):
@@ -1400,15 +1467,35 @@ def _holds_session(ctx, inp, io):
                 if not msg and src["first"] is not None and out["aux"]["t0"] is not None and frac(out["aux"]["t0"]) != frac(src["first"]):
                     msg = _m("the audio array no longer starts where it started when it was produced")
             elif kind in ("look", "copy"):
-                if out["val"]["coords"] != src["coords"] or frac(out["val"]["step"]) != frac(src["step"]):
+                if out["val"]["coords"] != src["coords"] or _fq(out["val"]["step"]) != _fq(src["step"]):
                     msg = _m("an array looked at again is not what it was when it was produced",
-                             f"step {float(frac(out['val']['step']))!r} (was {float(frac(src['step']))!r}), "
+                             f"step {_fl(out['val']['step'])!r} (was {_fl(src['step'])!r}), "
                              f"{len(out['val']['coords'])} coordinates (were {len(src['coords'])})")
             elif kind == "slice":
                 want = src["coords"][st["a"]:st["b"]]
-                if out["val"]["coords"] != want or frac(out["val"]["step"]) != frac(src["step"]):
+                if out["val"]["coords"] != want or _fq(out["val"]["step"]) != _fq(src["step"]):
                     msg = _m("a slice of an array does not carry that part of its time axis / its step",
-                             f"step {float(frac(out['val']['step']))!r} (source {float(frac(src['step']))!r})")
+                             f"step {_fl(out['val']['step'])!r} (source {_fl(src['step'])!r})")
+            elif kind == "strip":
+                # harness-made (xarray only): same coordinates, no step attribute
+                if out["val"]["coords"] != src["coords"] or out["val"]["step"] is not None:
+                    raise InfraError("session: strip did not produce the source's axis without a step attribute")
+            elif kind == "stride":
+                # xarray only: every m-th coordinate; the attrs (a step attribute, if any) are inherited as they are
+                if out["val"]["coords"] != src["coords"][st["a"]::st["m"]]:
+                    raise InfraError("session: a strided selection is not every m-th coordinate of its source")
+                if _fq(out["val"]["step"]) != _fq(src["step"]):
+                    msg = _m("a strided selection of an array carries a step attribute its source did not have when it was produced",
+                             f"step {_fl(out['val']['step'])!r} (source {_fl(src['step'])!r})")
+            elif kind == "filter":
+                # `filter` is not one of the property's producers: only 'its output axis is its input axis'
+                # (and, by the snapshots, 'it does not modify its argument')
+                if out["aux"].get("dims") != out["aux"].get("in_dims"):
+                    msg = _m("filtered array does not keep the dimensions of its input", f"{out['aux'].get('in_dims')} -> {out['aux'].get('dims')}")
+                elif out["val"]["coords"] != src["coords"] or _fq(out["val"]["step"]) != _fq(src["step"]):
+                    msg = _m("filtered array does not carry the time axis / the step of its input",
+                             f"step {_fl(out['val']['step'])!r} (input {_fl(src['step'])!r}), "
+                             f"{len(out['val']['coords'])} coordinates (input {len(src['coords'])})")
         if msg:
             cls, detail = _strip_cls(msg)
             return _sm(cls, k, st, detail)
@@ -1427,9 +1514,13 @@ def _compare_session(inp, io, mo):
             continue    # loads are judged as the base operations (monitor + full model, frames included) by `holds`
         m = ms[k] if k < len(ms) else {"raise": "missing"}
         msg = None
+        if kind == "filter" and _is_raise(out):
+            continue    # what `filter` raises is not pinned by the property
         if _is_raise(out) or _is_raise(m):
             if _is_raise(out) != _is_raise(m):
                 msg = _cmp_raise(out, m)
+        elif kind not in ("spectrogram", "resample") and out["val"].get("step") is None:
+            msg = _cmp_coords("time", out["val"]["coords"], m["val"]["coords"])    # no step attribute to compare
         elif kind == "spectrogram":
             srcm = ms[st["src"]]["val"]
             msg = _cmp_spec(out, {"val": {"len": len(srcm["coords"]), "time": m["val"]["time"], "freq": m["val"]["freq"]}})
@@ -2418,7 +2509,7 @@ def _session_cases(ctx, pool, count):
                 st["via"] = rng.choice(["validate", "json", "copy"])
             steps.append(st)
             vals.append((sr, nfile))
-        skeleton = ["reuse", "chain", "options", "poison", "slice", "random", "random"][i % 7]
+        skeleton = ["reuse", "chain", "options", "poison", "slice", "random", "nostep", "random"][i % 8]
 
         def audio_srcs():
             return [j for j, v in enumerate(vals) if v is not None and v[1] >= 2 and not steps[j].get("_dead")]
@@ -2490,6 +2581,39 @@ def _session_cases(ctx, pool, count):
                 add_resample(j)
             c = add({"k": "copy", "src": 0}, vals[0])
             add(_session_spec(rng, r0, n0, c))
+            add({"k": "look", "src": 0})
+        elif skeleton == "nostep":
+            # an array whose time coordinate has no 'step' attribute (hand-built / assign_coords / arithmetic on the
+            # coordinate) is resampled / filtered; then strided selections and slices of that SAME array are resampled:
+            # a step memoised in the argument's coordinate attrs by the first call would be inherited by them
+            how = rng.choice(["assign", "hand", "arith"])
+            p = add({"k": "strip", "src": 0, "how": how})
+            first = rng.choice(["resample", "resample", "filter", "both"])
+            if first in ("filter", "both") and n0 >= 60:
+                add({"k": "filter", "src": p, "low_freq": rat(Fraction(r0, 16)),
+                     **({"high_freq": rat(Fraction(r0, 4))} if rng.random() < 0.5 else {})})
+            if first != "filter" or n0 < 60:
+                st = _session_resample(rng, r0, n0, p, exact=rng.random() < 0.8)
+                add(st)
+            add({"k": "look", "src": p})
+            m = rng.choice([2, 2, 3])
+            a0 = rng.choice([0, 0, 1])
+            nh = len(range(a0, n0, m))
+            h = add({"k": "stride", "src": p, "m": m, "a": a0})
+            if nh >= 2:
+                t2 = rng.choice([r0, r0, 2 * r0, max(1, r0 // m)])
+                if 2 * r0 <= nh * t2 * m <= 3000 * r0:
+                    add({"k": "resample", "src": h, "target": int(t2)})
+                if rng.random() < 0.4 and nh >= 60:
+                    add({"k": "filter", "src": h, "low_freq": rat(Fraction(r0, 16 * m))})
+            # a contiguous slice of the same array, resampled; the strided selection of the LOADED array (it has a
+            # step attribute, so its spacing is not its step: model / C15-2 only)
+            b = rng.randint(max(2, n0 // 2), n0)
+            sl = add({"k": "slice", "src": p, "a": 0, "b": b})
+            add(_session_resample(rng, r0, b, sl, exact=False))
+            if rng.random() < 0.5:
+                add({"k": "stride", "src": 0, "m": 2, "a": 0})
+            add({"k": "look", "src": p})
             add({"k": "look", "src": 0})
         for _ in range(rng.randint(2, 5) if skeleton == "random" else rng.randint(0, 2)):
             srcs = audio_srcs()
